@@ -6,6 +6,7 @@ import (
 	"encoding/json"
 	"errors"
 	"fmt"
+	modbus "github.com/aldas/go-modbus-client"
 	"runtime"
 	"sync/atomic"
 
@@ -410,6 +411,48 @@ func emissionSweep(res *ev.Result) {
 			check(fmt.Sprintf("sweep-exception-fc%d-c%d", fc, code), packet.ErrorResponseRTU{UnitID: uint8(fc ^ code), Function: uint8(fc), Code: uint8(code)}.Bytes())
 		}
 	}
+	// requests that did not come from a constructor: FC15 struct literals whose last data byte has bits set beyond the
+	// coil count (a request parsed off a sloppy master and re-encoded), every count 1..16 x every value of the last byte
+	for cnt := 1; cnt <= 16; cnt++ {
+		for v := 0; v < 256; v++ {
+			data := []byte{byte(v)}
+			if cnt > 8 {
+				data = []byte{0xA5, byte(v)}
+			}
+			name := fmt.Sprintf("literal-fc15-count%d-last%02x", cnt, v)
+			func() {
+				defer func() {
+					if rec := recover(); rec != nil {
+						res.Violate(ev.Violation{Check: "emission", Kind: "encoder-panic", Attrs: map[string]any{"shape": name}, Msg: fmt.Sprintf("%s: Bytes() panicked: %v", name, rec), Case: trailerCase{Shape: name}})
+					}
+				}()
+				check(name, packet.WriteMultipleCoilsRequestRTU{WriteMultipleCoilsRequest: packet.WriteMultipleCoilsRequest{UnitID: 0x11, StartAddress: 0x0410, CoilCount: uint16(cnt), Data: data}}.Bytes())
+			}()
+		}
+	}
+	// requests made by the builder, re-addressed through their exported fields before they are encoded
+	for _, tgt := range []string{"coils", "holding"} {
+		b := modbus.NewRequestBuilder("s", 1)
+		b.Add(&modbus.BField{Field: modbus.Field{Name: "c", ServerAddress: "s", UnitID: 1, Address: 10, Type: modbus.FieldTypeCoil}})
+		b.Add(&modbus.BField{Field: modbus.Field{Name: "r", ServerAddress: "s", UnitID: 1, Address: 10, Type: modbus.FieldTypeUint16}})
+		var reqs []modbus.BuilderRequest
+		if tgt == "coils" {
+			reqs, _ = b.ReadCoilsRTU()
+		} else {
+			reqs, _ = b.ReadHoldingRegistersRTU()
+		}
+		for _, r := range reqs {
+			check("builder-"+tgt, r.Bytes())
+			for _, u := range []uint8{2, 0, 255, 0x41} {
+				r.UnitID = u
+				check(fmt.Sprintf("builder-%s-unit-set-to-%d", tgt, u), r.Bytes())
+				var pr packet.Request = r
+				check(fmt.Sprintf("builder-%s-unit-set-to-%d-as-request", tgt, u), pr.Bytes())
+			}
+			r.StartAddress, r.ServerAddress = 77, "other"
+			check("builder-"+tgt+"-start-and-server-set", r.Bytes())
+		}
+	}
 	// the same exception emitted for every unit in turn (and back), for every function: what is emitted for one unit
 	// must not depend on what was emitted for another
 	for fc := 1; fc < 256; fc++ {
@@ -461,6 +504,29 @@ func specialStates(res *ev.Result) {
 	res.Axis("continuations from 6 special remainders", "all 2-byte continuations, with and without interposed zero bytes", n)
 }
 
+type trailerShape struct {
+	name string
+	body []byte
+}
+
+// earlyProbe is the first thing the process does with the library - before anything has computed a CRC: the
+// CRC-verifying parsers must refuse wrong trailers from the very first call on (a lazily initialised table, a cache that is
+// only valid after a first encode).
+func earlyProbe(res *ev.Result) {
+	for _, f := range []struct {
+		req   bool
+		frame []byte
+	}{
+		{false, []byte{0x01, 3, 2, 0x12, 0x34, 0xDE, 0xAD}},
+		{true, []byte{0x01, 3, 0, 0x6B, 0, 3, 0xBE, 0xEF}},
+		{false, []byte{0x0A, 0x83, 2, 0x00, 0x00}},
+		{true, []byte{0x11, 6, 0, 1, 0, 3, 0xFF, 0xFF}},
+	} {
+		c := trailerCase{Shape: "first-call-in-process", Frame: fmt.Sprintf("%x", f.frame), Request: f.req, Trailer: int(f.frame[len(f.frame)-2]) | int(f.frame[len(f.frame)-1])<<8}
+		evalTrailer(c, f.frame, res)
+	}
+}
+
 // acceptanceSweep: frames built by the reference (not by the library) with a CORRECT trailer, over every 16-bit data
 // value - so that every trailer value occurs, in particular trailers ending in 0xFF / 0x00 and trailers equal to data
 // bytes: the CRC-verifying parsers must accept them exactly like the plain parsers do.
@@ -481,6 +547,32 @@ func acceptanceSweep(res *ev.Result) {
 		{"req-fc6", true, func(v uint16) []byte { return []byte{0x01, 6, 0, 9, hi(v), lo(v)} }},
 		{"req-fc3-addr", true, func(v uint16) []byte { return []byte{0x0A, 3, hi(v), lo(v), 0, 1} }},
 	}
+	// frames that contain the CRC of their own prefix as DATA, followed by a repetition of the header: anything that
+	// recognises "a complete frame" inside a longer one (an echoed request, a shorter reply) by its CRC alone meets its
+	// match here. Register responses with 5 and 8 registers; the embedded CRC at every data offset; every trailer.
+	var adv []trailerShape
+	for _, regs := range []int{5, 8} {
+		for k := 3; k+4 <= 3+2*regs; k++ {
+			body := []byte{0x11, 3, byte(2 * regs)}
+			for i := 0; i < 2*regs; i++ {
+				body = append(body, byte(0x6B+i*17))
+			}
+			body[3], body[4], body[5] = 0x0A, 0x00, 0x6B // (looks like the start of a request when read as one)
+			c := spec.CRC(body[:k])
+			body[k], body[k+1] = byte(c), byte(c>>8)
+			body[k+2], body[k+3] = body[0], body[1]
+			adv = append(adv, trailerShape{fmt.Sprintf("adversarial-resp-fc3-%dregs-crc-at-%d", regs, k), append([]byte(nil), body...)})
+		}
+	}
+	ev.Par(len(adv), runtime.NumCPU(), func(i int) {
+		a := adv[i]
+		for t := 0; t < 65536; t++ {
+			frame := append(append([]byte(nil), a.body...), byte(t), byte(t>>8))
+			c := trailerCase{Shape: a.name, Frame: fmt.Sprintf("%x", frame), Request: false, Trailer: t}
+			evalTrailer(c, frame, res)
+		}
+		atomic.AddInt64(&n, 65536)
+	})
 	ev.Par(len(shapes), runtime.NumCPU(), func(i int) {
 		sh := shapes[i]
 		for v := 0; v < 65536; v++ {
@@ -501,6 +593,7 @@ func run(tier string, shard, nsh int, res *ev.Result) {
 	if err := spec.SelfCheck(); err != nil {
 		panic(err)
 	}
+	earlyProbe(res)
 	emissionSweep(res)
 	acceptanceSweep(res)
 	specialStates(res)
